@@ -50,12 +50,80 @@ def run(chk, repo):
     commands(chk, repo)
     lookup_else(chk, repo)
     fixed(chk, repo)
+    # what the program reads is the value that was stored: loads of signed
+    # formats are sign-extended, also after a byte swap (shared with C01)
+    from ..dsl import Ctx as _Dsl
+    from . import c01 as _c01
+    chk.doc("R01.5", "sign extension of loads and byte-swapped loads (shared "
+                     "with C01)")
+    _d = _Dsl(repo)
+    _c01.r5_signext(chk, repo, _d)
+    _c01.r5_endian(chk, repo, _d)
     sh.watermark_rules(chk, repo, "R09.7")
     sh.slot_escape_rule(chk, repo, "R09.7")
     sh.member_symmetry(chk, repo, "R09.3")
 
 
+def own_cells(chk, repo):
+    """HashMap.init / load, by abstract execution on a program with two
+    hash maps (and an inherited variable): each map binds its file
+    descriptor to its own variables only, and loads its own defaults"""
+    hm = repo.cls(H + "HashMap")
+    dc = repo.cls(H + "HashGlobalVarDesc")
+    ini, ld = hm.methods.get("init"), hm.methods.get("load")
+    need(ini is not None and ld is not None, "HashMap.init/load vanished")
+    chk.analysed(hm.qualname + ".init", hm.qualname + ".load")
+
+    def desc(n, name, default):
+        return Obj(dc, {"count": n, "fmt": "I", "default": default,
+                        "name": name})
+    a1, a2, b1, b2 = (desc(1, "a1", 11), desc(2, "a2", 22),
+                      desc(1, "b1", 33), desc(2, "b2", 44))
+    mapA = Obj(hm, {"vars": [a1, a2], "count": 2})
+    mapB = Obj(hm, {"vars": [b1, b2], "count": 2})
+    bad = []
+    for first, second in ((mapA, mapB), (mapB, mapA)):
+        cells_ = {n: Obj(None, {"fd": None}) for n in ("a1", "a2", "b1",
+                                                      "b2")}
+        sets = []
+        klass = Obj(None, {"__mro__": (
+            Obj(None, {"__dict__": {"a1": a1, "b1": b1, "mA": mapA}}),
+            Obj(None, {"__dict__": {"a2": a2, "b2": b2, "mB": mapB}})),
+            "__dict__": {"a1": a1, "b1": b1, "a2": a2, "b2": b2}})
+        prog = Obj(None, dict(cells_))
+        prog.fields["__class__"] = klass
+        prog.fields["loaded"] = False
+        made = []
+        ev = Evaluator(repo, hm.module, hm, funcs={"create_map": (
+            "hook", lambda *a, _m=made: _m.append(a) or 100 + len(_m))})
+        try:
+            ev.call_function(ini, [first, prog, None], cls=hm)
+            own = ["a1", "a2"] if first is mapA else ["b1", "b2"]
+            other = [n for n in cells_ if n not in own]
+            fd1 = cells_[own[0]].fields["fd"]
+            if fd1 is None or any(cells_[n].fields["fd"] != fd1
+                                  for n in own):
+                bad.append(f"init of the map of {own}: descriptors "
+                           f"{ {n: c.fields['fd'] for n, c in cells_.items()} }")
+            elif any(cells_[n].fields["fd"] is not None for n in other):
+                bad.append(f"init of the map of {own} also binds "
+                           f"{[n for n in other if cells_[n].fields['fd'] is not None]}"
+                           f": variables of another map share its cells")
+            ev.call_function(ini, [second, prog, None], cls=hm)
+            if cells_[own[0]].fields["fd"] != fd1:
+                bad.append(f"init of the other map re-binds {own}")
+        except Unknown:
+            return      # not executable on the stand-in: the other rules
+        except Raised as e:
+            bad.append(f"init raises {e.what[:40]}")
+    chk.ob("R09.1", hm.qualname + ".init", "a map's file descriptor is bound "
+           "to the variables of that map, and to no others (two maps in one "
+           "program, by abstract execution)", not bad, ini,
+           "; ".join(bad[:2]) or "cells of different maps stay apart")
+
+
 def cells(chk, repo):
+    own_cells(chk, repo)
     hm = repo.cls(H + "HashMap")
     ini = hm.methods.get("init")
     ok = ini is not None and bool(find(
